@@ -40,6 +40,7 @@ Module Lits.
   Definition s_binaries : str := Eval compute in s2l "binaries".
   Definition s_optional : str := Eval compute in s2l "optional".
   Definition s_rel_example : str := Eval compute in s2l "a (>= 1.0), b | c".
+  Definition s_misc_depends : str := Eval compute in s2l "${misc:Depends}, b".
   Definition s_para_example : str := Eval compute in (s2l "Source: x" ++ [10%N] ++ s2l "# c" ++ [10%N] ++ s2l "Maintainer: A" ++ [10%N] ++ s2l "Section: y" ++ [10%N])%list.
   Definition s_para_after : str := Eval compute in (s2l "Source: x" ++ [10%N] ++ s2l "# c" ++ [10%N] ++ s2l "Maintainer: optional" ++ [10%N] ++ s2l "Section: y" ++ [10%N])%list.
   Definition s_up1 : str := Eval compute in s2l "A <a@x>".
@@ -551,6 +552,92 @@ Check C15_vcs : forall a n v b,
   | None => VNone
   end.
 Print Assumptions C15_vcs.
+
+(* ------------------------------------------------------------------ 6b. audit follow-up (2026-10) *)
+(* relationship fields are read with Relations::parse_relaxed(v, true): the getter is total and gives
+   back the field's text for EVERY text, substitution variables (${misc:Depends}) included *)
+Theorem C15_reading_relations : forall c s, decode c CRelaxed (Some s) = Ok (VSome (VStr s)).
+Proof. exact reading_relaxed. Qed.
+Check C15_reading_relations : forall c s, decode c CRelaxed (Some s) = Ok (VSome (VStr s)).
+Print Assumptions C15_reading_relations.
+
+(* Rules-Requires-Root never panics: "no" / "yes" | "binary-targets" (any case) / a keyword list = None *)
+Theorem C15_reading_root_flag : forall c raw,
+  decode c CRootFlag raw =
+  Ok (match raw with
+      | None => VNone
+      | Some s => if str_eqb (to_lower s) l_yes || str_eqb (to_lower s) l_binary_targets then VSome (VBool true)
+                  else if str_eqb (to_lower s) l_no then VSome (VBool false) else VNone
+      end).
+Proof. exact reading_root_flag. Qed.
+Check C15_reading_root_flag : forall c raw,
+  decode c CRootFlag raw =
+  Ok (match raw with
+      | None => VNone
+      | Some s => if str_eqb (to_lower s) l_yes || str_eqb (to_lower s) l_binary_targets then VSome (VBool true)
+                  else if str_eqb (to_lower s) l_no then VSome (VBool false) else VNone
+      end).
+Print Assumptions C15_reading_root_flag.
+
+(* FINDING (known_findings.jsonl, class c15-dep3-long-description-without-description), not repaired:
+   set_long_description on a DEP-3 header without Description/Subject.  Outside that class the
+   theorem holds; inside it the witness shows it does not. *)
+Theorem C15_long_description_outside_known_class : forall c p l,
+  ~ Known_long_description_without_description p -> both_desc p = false ->
+  let p' := dep3_set_long_description LI false p l in
+  decode c CRestLines (desc_raw p') = Ok (VSome (VStr l)) /\
+  decode c CFirstLine (desc_raw p') = decode c CFirstLine (desc_raw p) /\
+  strip [k_Description; k_Subject] p' = strip [k_Description; k_Subject] p.
+Proof. exact long_description_outside_known_class. Qed.
+Check C15_long_description_outside_known_class : forall c p l,
+  ~ Known_long_description_without_description p -> both_desc p = false ->
+  let p' := dep3_set_long_description LI false p l in
+  decode c CRestLines (desc_raw p') = Ok (VSome (VStr l)) /\
+  decode c CFirstLine (desc_raw p') = decode c CFirstLine (desc_raw p) /\
+  strip [k_Description; k_Subject] p' = strip [k_Description; k_Subject] p.
+Print Assumptions C15_long_description_outside_known_class.
+
+Theorem C15_long_description_known_class_witness :
+  let c := mk_ctx id_xparse [] in
+  let p := @nil (str * str) in
+  let l := [97; 10; 98]%N in
+  Known_long_description_without_description p /\
+  decode c CRestLines (desc_raw (dep3_set_long_description LI false p l)) = Ok (VSome (VStr [98%N])) /\
+  decode c CFirstLine (desc_raw (dep3_set_long_description LI false p l)) = Ok (VSome (VStr [97%N])).
+Proof. exact long_description_known_class_witness. Qed.
+Check C15_long_description_known_class_witness :
+  let c := mk_ctx id_xparse [] in
+  let p := @nil (str * str) in
+  let l := [97; 10; 98]%N in
+  Known_long_description_without_description p /\
+  decode c CRestLines (desc_raw (dep3_set_long_description LI false p l)) = Ok (VSome (VStr [98%N])) /\
+  decode c CFirstLine (desc_raw (dep3_set_long_description LI false p l)) = Ok (VSome (VStr [97%N])).
+Print Assumptions C15_long_description_known_class_witness.
+
+(* the code before proposed_fixes/C15-{rules-requires-root-values,relations-getters-substvars,set-license-text}.patch *)
+Theorem C15_audit_shipped_refuted :
+  let c := mk_ctx id_xparse [] in
+  (* rules_requires_root() on the documented value binary-targets *)
+  decode c CYesNoLower (Some l_binary_targets) = Panic 3%N /\
+  (* every relations getter on ${misc:Depends} *)
+  decode c (CParse TRelations true) (Some s_misc_depends) = Panic 1%N /\
+  decode c CRelaxed (Some s_misc_depends) = Ok (VSome (VStr s_misc_depends)) /\
+  (* set_license(License::Text(t)) read back as License::Name(t) *)
+  (exists raw, enc CLicenseSetShipped (VList [t_Text; s_optional]) = Some raw /\
+               decode c CLicense (Some raw) = Ok (VSome (VList [t_Name; s_optional]))) /\
+  (exists raw, enc CLicenseSet (VList [t_Text; s_optional]) = Some raw /\
+               decode c CLicense (Some raw) = Ok (VSome (VList [t_Text; s_optional]))).
+Proof. vm_compute. repeat split; eexists; split; reflexivity. Qed.
+Check C15_audit_shipped_refuted :
+  let c := mk_ctx id_xparse [] in
+  decode c CYesNoLower (Some l_binary_targets) = Panic 3%N /\
+  decode c (CParse TRelations true) (Some s_misc_depends) = Panic 1%N /\
+  decode c CRelaxed (Some s_misc_depends) = Ok (VSome (VStr s_misc_depends)) /\
+  (exists raw, enc CLicenseSetShipped (VList [t_Text; s_optional]) = Some raw /\
+               decode c CLicense (Some raw) = Ok (VSome (VList [t_Name; s_optional]))) /\
+  (exists raw, enc CLicenseSet (VList [t_Text; s_optional]) = Some raw /\
+               decode c CLicense (Some raw) = Ok (VSome (VList [t_Text; s_optional]))).
+Print Assumptions C15_audit_shipped_refuted.
 
 (* ------------------------------------------------------------------ 7. the code as shipped (before proposed_fixes/C15-*.patch) *)
 (* DEP-3 setters used Paragraph::insert: with the field present the getter keeps returning the
